@@ -30,6 +30,8 @@ class Quantity:
         if isinstance(magnitude, (int,float,Decimal,list,np.ndarray)) or np.isscalar(magnitude):
             self.magnitude = Magnitude(magnitude, abse=abse, rele=rele)
         elif isinstance(magnitude, Magnitude):
+            # keep an own copy: the Magnitude passed in (possibly held by another quantity) stays as it is
+            magnitude = Magnitude(magnitude.value, magnitude.error)
             if abse is not None:
                 magnitude.abse(abse)
             elif rele is not None:
